@@ -395,6 +395,7 @@ func (e *Engine) appendOp(w *Worker, st *State, g *G, fr *Frame, a0, a1 Value, i
 	case Slice:
 		src = make([]Value, s.Len)
 		for i := 0; i < s.Len; i++ {
+			e.raceAccess(st, g, fr, s.Base.Field(s.Off+i), false)
 			src[i] = st.load(s.Base.Field(s.Off + i))
 		}
 	case Str:
@@ -410,6 +411,7 @@ func (e *Engine) appendOp(w *Worker, st *State, g *G, fr *Frame, a0, a1 Value, i
 	need := dst.Len + len(src)
 	if need <= dst.Cap && !dst.Base.IsNil() {
 		for i, v := range src {
+			e.raceAccess(st, g, fr, dst.Base.Field(dst.Off+dst.Len+i), true)
 			st.store(dst.Base.Field(dst.Off+dst.Len+i), v)
 		}
 		return Slice{Base: dst.Base, Off: dst.Off, Len: need, Cap: dst.Cap}
@@ -421,6 +423,7 @@ func (e *Engine) appendOp(w *Worker, st *State, g *G, fr *Frame, a0, a1 Value, i
 	}
 	arr := make(Tuple, nc)
 	for i := 0; i < dst.Len; i++ {
+		e.raceAccess(st, g, fr, dst.Base.Field(dst.Off+i), false)
 		arr[i] = st.load(dst.Base.Field(dst.Off + i))
 	}
 	for i, v := range src {
